@@ -566,7 +566,8 @@ def build_config(cid, v, gl, meshes):
     return {"id": cid, "k": "config", "nd": nd, "mesh": mesh,
             "model": {"nu": v["nu2"] / 2.0, "ranges": [r * h for r in v["ranges"]], "angles": ang, "sill": sill,
                       "nugget": sill / v["nuggetinv"]},
-            "data": {"x": [g.world(q) for q in v["data"]], "z": [float(z) for z in v["z"]]},
+            "data": dict({"x": [g.world(q) for q in v["data"]], "z": [float(z) for z in v["z"]]},
+                         **({"verr": [sill * f[0] / f[1] for f in v["verrfrac"]]} if v["verrfrac"] else {})),
             "targets": [g.world(a) for a in nodes] + [g.world(q) for q in v["data"]],
             "v1": v["v1"], "v2": v["v2"], "lincoefs": v["lincoefs"],
             "cgeps": tolval(v["cgeps"]), "cgepsset": sorted(tolval(t) for t in v["cgepsset"]), "cgnitermax": v["cgnitermax"],
@@ -578,7 +579,7 @@ def judge_config(v, g, o, table, stats, heavy):
     """-> list of (rec, replay)"""
     c = v["c"]
     base = {"part": "ops", "nd": c["nd"], "fam": c["mesh"]["fam"], "type": "turbo" if c["mesh"]["fam"] in FAMILIES_TURBO else "std",
-            "rotated": bool(g.rotated), "alpha_integer": c["alpha2"] % 2 == 0, "aniso": c["aniso"], "layout": c["layout"]}
+            "rotated": bool(g.rotated), "alpha_integer": c["alpha2"] % 2 == 0, "aniso": c["aniso"], "layout": c["layout"], "verr": c["verr"]}
     out = []
 
     def dis(name, clause, tag, detail):
@@ -699,6 +700,7 @@ def part_b(ck, tier, exe, partA):
             stats["cfg:alpha_integer" if c["alpha2"] % 2 == 0 else "cfg:alpha_noninteger"] += 1
             stats["cfg:" + c["aniso"]] += 1
             stats["cfg:layout:" + c["layout"]] += 1
+            stats["cfg:verr:" + c["verr"]] += 1
         for rec, replay in lst:
             ck.disagree(rec, replay)
             ndis += 1
@@ -711,7 +713,8 @@ def part_b(ck, tier, exe, partA):
             if stats["ob:%s:%dD" % (cl, nd)] == 0:
                 raise Broken("vacuous: clause %s never measured in %d-D" % (cl, nd))
     for key in ("cfg:rot", "cfg:norot", "cfg:alpha_integer", "cfg:alpha_noninteger", "cfg:iso", "cfg:aniso", "cfg:rotaniso",
-                "cfg:layout:spread", "cfg:layout:cluster", "cfg:layout:nodes", "cfg:layout:outside"):
+                "cfg:layout:spread", "cfg:layout:cluster", "cfg:layout:nodes", "cfg:layout:outside",
+                "cfg:verr:const", "cfg:verr:distinct", "cfg:verr:extreme"):
         if stats[key] == 0:
             raise Broken("vacuous: no configuration of category %s" % key[4:])
     for ob in table:
